@@ -3,10 +3,11 @@
 (* The complete step function: the union of the call alphabets of the      *)
 (* modules of the specification.                                           *)
 (***************************************************************************)
-EXTENDS Codec
+EXTENDS Format
 
 Step(objs, opts, call) ==
   IF call.op \in CoreOps THEN CoreStep(objs, opts, call)
   ELSE IF call.op \in CodecOps THEN CodecStep(objs, opts, call)
+  ELSE IF call.op \in FormatOps THEN FormatStep(objs, opts, call)
   ELSE Unconstrained
 =============================================================================
